@@ -144,11 +144,18 @@ def run(ctx: Ctx):
     if r0.violated != "InvImpl":
         raise Machinery("pinned __eq__ mirror should be refuted")
     # ---- trees: traversal
-    rt = ctx.mc("MC_ComponentTree", cfg_text(spec="Spec", constants={
-        "MaxN": 4 if ctx.quick else 5, "Names": {"VEVENT", "VTODO", "X-U"} if ctx.quick else {"VEVENT", "VTODO", "X-U"},
-        "Props": {"none", "p"} if ctx.quick else {"none", "p"}, "Pairs": False, "Old": False},
-        invariants=["InvRefl", "InvPerturb", "InvMirror", "VecTree"]), workers=6 if ctx.quick else 14, timeout=3000)
-    trees = rt.prints
+    # every tree of up to 4 nodes over three names; thorough adds every tree of up to 5 nodes over two names (26 260 trees;
+    # TLC computes initial states on one core, so the five-node/three-name instance -- 190 000 trees -- does not finish in an hour)
+    tree_runs = [dict(MaxN=4, Names={"VEVENT", "VTODO", "X-U"})] + ([] if ctx.quick else [dict(MaxN=5, Names={"VEVENT", "X-U"})])
+    trees, seen_t = [], set()
+    for tr_ in tree_runs:
+        rt = ctx.mc("MC_ComponentTree", cfg_text(spec="Spec", constants={**tr_, "Props": {"none", "p"}, "Pairs": False, "Old": False},
+                                                 invariants=["InvRefl", "InvPerturb", "InvMirror", "VecTree"]), workers=6 if ctx.quick else 14, timeout=3000)
+        for v in rt.prints:
+            key = repr(v["t"])
+            if key not in seen_t:
+                seen_t.add(key)
+                trees.append(v)
     if len(trees) < 1000:
         raise Machinery("too few trees")
     ctx.sample(trees[len(trees) // 2])
